@@ -7,7 +7,7 @@
    ends the callers' wait); that the owner gets to act is the progress property C03 and is
    observed by the exact-quiescence monitor. *)
 From Coq Require Import List Arith Bool.
-From VQ Require Import SliceDisp SliceDispProofs SliceBarrier SliceBarrierProofs.
+From VQ Require Import SliceDisp SliceDispProofs SliceBar SliceBarProofs SliceBarrier SliceBarrierProofs.
 Import ListNotations.
 
 (* An accepted job is always visible to the barrier: in its queue (counted by that queue's
@@ -63,6 +63,40 @@ Theorem C06_step_that_ends_the_wait_takes_the_obligation :
     holds_obl t (bobs s') = true /\ bstale s' = true.
 Proof. exact falsifying_step_takes_obligation. Qed.
 Print Assumptions C06_step_that_ends_the_wait_takes_the_obligation.
+
+(* The calls themselves (coq/SliceBar.v): PauseAndWait / Stop / WaitAndStop return nil only to a
+   caller that, inside the call, read curProcessing = 0 on a paused / stopped worker (or read
+   Stopped while an earlier caller's hold was in force) — each of several concurrent callers on
+   its own. At that point, and for as long as nobody stores Running / Initiated, no worker
+   function is executing. *)
+Theorem C06_barrier_return_needs_establishment :
+  forall s t s', xstep s (XRet t) = Some s' -> In t (est s) /\ s' = s.
+Proof. exact return_needs_establishment. Qed.
+Print Assumptions C06_barrier_return_needs_establishment.
+
+Theorem C06_established_caller_sees_nothing_running :
+  forall s t, XReachable s -> In t (fresh s) ->
+    hold (xd s) = true /\ jl (xd s) <> JRun /\ dstep (xd s) DWfEnterJ = None /\ dstep (xd s) DDeqJ = None /\
+    okr (xd s) = 0 /\ oth (xd s) = 0.
+Proof. exact fresh_caller_holds. Qed.
+Print Assumptions C06_established_caller_sees_nothing_running.
+
+(* non-vacuity: two Stop callers; the second finds Stopped under the first one's hold. A caller
+   that returns on seeing Stopped while a job is still in flight is outside the model. *)
+Example C06_example_calls :
+  match xrun_from 1 [XD DAcceptJ; XD (DReserve 1 1); XD (DRecheck 1); XD DDeqJ; XD (DClaimJ true); XD DWfEnterJ;
+                     XCall 7; XD (DStatusStore 2); XCurLoad 7 1; XCall 8; XStLoad 8 2; XCurLoad 8 1;
+                     XD DWfExitJ; XD DReleaseJ; XCurLoad 7 0; XD (DStatusStore 3); XRet 7; XCurLoad 8 0; XRet 8;
+                     XCall 9; XStLoad 9 3; XRet 9] with
+  | inr s => hold (xd s) = true /\ est s = [9; 8; 7]
+  | inl _ => False
+  end /\
+  match xrun_from 1 [XD DAcceptJ; XD (DReserve 1 1); XD (DRecheck 1); XD DDeqJ; XD (DClaimJ true); XD DWfEnterJ;
+                     XCall 7; XD (DStatusStore 3); XCurLoad 7 1; XCall 8; XStLoad 8 3; XRet 8] with
+  | inr _ => False
+  | inl i => i = 11
+  end.
+Proof. vm_compute. repeat split. Qed.
 
 (* With nobody left holding anything and no signal buffered, no caller has been left behind. *)
 Theorem C06_nobody_left_behind_at_rest :
